@@ -951,6 +951,19 @@ get_trait(has_traits_object *obj, PyObject *name, int instance)
         if ((trait = get_prefix_trait(obj, name, 0)) == NULL) {
             return NULL;
         }
+
+        /* Resolving the prefix trait announces 'trait_added', and a listener
+           may have given the object instance traits meanwhile (possibly its
+           first ones, possibly one of this very name): look again. */
+        itrait_dict = obj->itrait_dict;
+        if ((instance > 0) && (itrait_dict != NULL)) {
+            itrait = (trait_object *)dict_getitem(itrait_dict, name);
+            if (itrait != NULL) {
+                assert(PyTrait_CheckExact(itrait));
+                Py_INCREF(itrait);
+                return (PyObject *)itrait;
+            }
+        }
     }
 
     assert(PyTrait_CheckExact(trait));
